@@ -192,7 +192,9 @@ func check(c Case) *vk.Failure {
 		res := make([]probeRes, len(js))
 		for i, j := range js {
 			var g1, g uint64
-			if f := vk.TryF(func() string { return fmt.Sprintf("%s: Get/Get1(%d) with Offset %d and %d words", step, j, tb.Offset, len(tb.Words)) }, func() {
+			if f := vk.TryF(func() string {
+				return fmt.Sprintf("%s: Get/Get1(%d) with Offset %d and %d words", step, j, tb.Offset, len(tb.Words))
+			}, func() {
 				g1, g = tb.Get1(j), tb.Get(j)
 			}); f != nil {
 				return nil, f
@@ -236,7 +238,9 @@ func check(c Case) *vk.Failure {
 			continue
 		}
 		for _, idx := range expand(op, m) {
-			if f := vk.TryF(func() string { return fmt.Sprintf("%s: Set(%d) with Offset %d and %d words", step, idx, tb.Offset, len(tb.Words)) }, func() { tb.Set(idx) }); f != nil {
+			if f := vk.TryF(func() string {
+				return fmt.Sprintf("%s: Set(%d) with Offset %d and %d words", step, idx, tb.Offset, len(tb.Words))
+			}, func() { tb.Set(idx) }); f != nil {
 				return f
 			}
 			m.doSet(idx)
